@@ -851,7 +851,7 @@ class C13(L1Prop):
             out.append(Case(f"c13-{k}", ops))
         return out
     def relevant(self, i, trace):
-        return trace[i][0].split()[0] == "rows"
+        return False      # responses across backends are compared directly (cross); raw rows belong to C19
     def cross(self, case, traces):
         a, b = traces.get("inmem", []), traces.get("sqlite", [])
         for i, ((oa, ra, _), (ob, rb, _)) in enumerate(zip(a, b)):
@@ -886,6 +886,8 @@ class C18(L1Prop):
                 return ["dumpall", "rows"]
             ops, g = rand_prefix(rng, rng.randint(6, length), nc, k % 2 == 0, False, True, obs)
             out.append(Case(f"c18-{k}", ["dumpall", "rows"] + ops))
+        from .props_http import refusal_cases
+        out += refusal_cases(rng, sizes(tier, 6, 60))
         return out
     def _segments(self, trace):
         """indices of protocol ops with the dump blocks before and after"""
@@ -900,8 +902,8 @@ class C18(L1Prop):
         return out if direction > 0 else list(reversed(out))
     def relevant(self, i, trace):
         o = trace[i][0]
-        if o.split()[0] not in ("dump", "rows"):
-            return False
+        if o.split()[0] != "dump":
+            return False      # raw rows are compared before/after by the oracle, not against the model
         j = i
         while j >= 0 and trace[j][0].split()[0] in ("dump", "rows"):
             j -= 1
@@ -911,6 +913,9 @@ class C18(L1Prop):
         k = resp_kind(rm)
         return op.kind in ("gcv", "gs") or (op.kind == "av" and k in ("conflict", "noclient")) or op.kind == "as"
     def oracle(self, case, trace, backend):
+        if case.meta.get("http_refusals"):
+            from .props_http import refusal_oracle
+            return refusal_oracle(case, trace, backend)
         fails, tr = [], SnapTracker()
         for i, (o, ri, rm) in enumerate(trace):
             op = Op(o)
